@@ -181,6 +181,7 @@ struct PrimRun {
         env.lib_calls++;
         int flag = R.jv_prim(code, regs[ob][io].p, regs[ab][ia].p, regs[bb][ib].p);
         if (flag == -77) env.fail("C03", "arm-assembly-routine-fault", strf("primitive %d: %s", code, arm_last_fault().c_str()));
+        if (flag == -78) env.fail("C03", "x86-assembly-routine-fault", strf("primitive %d: the routine returned with a callee-saved register (rbx, rbp, r12-r15) changed or with the direction flag set", code));
         env.logf("PRIM %d o%d.%zu a%d.%zu b%d.%zu al%d flag=%d out=%s", code, ob, io, ab, ia, bb, ib, io == ia && ob == ab, flag, regs[ob][io].hexs().c_str());
         env.count(strf("op:prim_%d", code));
         if (ob == F) { if (Bn::from_le(regs[ob][io].p, bank_bytes[ob]) >= (is256 ? K().r : K().q)) env.count("probe:field_result_not_reduced"); }
@@ -188,6 +189,10 @@ struct PrimRun {
         env.add_case(strf("prim %d al%d f%d", code, io == ia && ob == ab, flag), true);
     }
     void run() {
+        // entry-state poisoning (x86-64 assembly replicas only; a no-op elsewhere): the primitives that are assembly routines are entered
+        // directly, with CF/OF as the plan says and junk in every register the ABI leaves undefined
+        struct Mode { Rep& R; int m; Mode(Rep& r, int mm) : R(r), m(mm) { if (m) R.jv_set_entry_mode(m); } ~Mode() { if (m) R.jv_set_entry_mode(0); } } mode(R, (int) plan.c("entry", 0));
+        if (plan.c("entry", 0)) env.count("fault:assembly_routines_entered_with_poisoned_flags_and_registers");
         for (size_t i = 0; i < plan.ops.size(); i++) {
             const Op& op = plan.ops[i]; env.step = (int) i;
             if (op.kind == "LOAD") op_load(op); else if (op.kind == "PAIR") op_pair(op); else if (op.kind == "PRIM") op_prim(op); else if (op.kind == "TAIL") op_tail(op);
@@ -202,6 +207,7 @@ struct PrimScenario : Scenario {
         auto kn = [&](const char* k, int64_t d) { auto it = knobs.find(k); return it == knobs.end() ? d : it->second; };
         auto rh = [&](size_t n) { std::vector<uint8_t> b(n); r.fill(b.data(), n); return hex(b.data(), n); };
         for (int b = 0; b < BK_COUNT; b++) for (size_t i = 0; i < bank_regs[b]; i++) p.ops.push_back({"LOAD", {b, (int64_t) i, r.chance(1, 2) ? 0 : (int64_t) r.below(15)}, {rh(bank_bytes[b])}});
+        if (kn("entry", 0)) p.cfg["entry"] = 1 + (int64_t) r.below(4);
         int n = (int) kn("ops", 400);
         for (int i = 0; i < n; i++) {
             int k = r.range(0, 19);
